@@ -28,6 +28,7 @@ type mapLoop struct {
 	kinds  []string                 // normalised kinds of the order-sensitive effects found (for tabled loops)
 	hdr    *ssa.BasicBlock          // header block (slice loops)
 	idxPhi *ssa.Phi                 // induction variable (slice loops)
+	kindFn map[string]*ssa.Function // module callee behind a "call:…" kind
 }
 
 func mapLoops(fn *ssa.Function) []*mapLoop {
@@ -74,6 +75,8 @@ func isSortCall(c *ssa.CallCommon) (kind string, ok bool) {
 		return "total", true
 	case "sort.Slice", "sort.SliceStable", "slices.SortFunc", "slices.SortStableFunc":
 		return "less", true
+	case "sort.Sort", "sort.Stable":
+		return "iface", true
 	}
 	return "", false
 }
@@ -82,9 +85,9 @@ func isSortCall(c *ssa.CallCommon) (kind string, ok bool) {
 // of them leaves requests that differ only there in their arrival order (second table audit:
 // two inline-fragment steps of one service at one object tied until the query was compared).
 var sortKeys = []struct{ fields, why string }{
-	{"InsertionPoint", "the realized insertion point (the object the answer is merged at, and the id which is sent)"},
-	{"URL", "the service"},
-	{"QueryString|QueryStringHash", "what is asked (two steps of one service at one object, e.g. inline fragments of an abstract type, differ in nothing else)"},
+	{"ExecutionRequest.InsertionPoint", "the realized insertion point of the request (the object the answer is merged at, and the id which is sent) — not the step's declared point, which all list elements of a step share"},
+	{"QueryPlanStep.URL", "the service"},
+	{"QueryPlanStep.QueryString|QueryPlanStep.QueryStringHash", "what is asked (two steps of one service at one object, e.g. inline fragments of an abstract type, differ in nothing else)"},
 }
 
 func (r *Run) missingSortKeys(v ssa.Value) []string {
@@ -104,11 +107,13 @@ func (r *Run) missingSortKeys(v ssa.Value) []string {
 			switch x := ins.(type) {
 			case *ssa.FieldAddr:
 				if f := fieldOf(x); f != nil {
-					read[f.Name()] = true
+					n := namedOf(x.X.Type())
+					read[n[strings.LastIndex(n, ".")+1:]+"."+f.Name()] = true
 				}
 			case *ssa.Field:
 				if st, ok := x.X.Type().Underlying().(*types.Struct); ok {
-					read[st.Field(x.Field).Name()] = true
+					n := namedOf(x.X.Type())
+					read[n[strings.LastIndex(n, ".")+1:]+"."+st.Field(x.Field).Name()] = true
 				}
 			case ssa.CallInstruction:
 				if callee := x.Common().StaticCallee(); callee != nil && inModule(callee) {
@@ -142,6 +147,9 @@ func (r *Run) totalLess(v ssa.Value) (bool, string) {
 		return false, "comparator is not a literal of this module"
 	}
 	for _, ret := range returnsOf(fs[0]) {
+		if reachedOnlyOnEquality(ret.Block()) {
+			continue // `return false` after every key compared equal: what a strict order must answer
+		}
 		for _, res := range retVals(ret) {
 			if c, ok := res.(*ssa.Const); ok {
 				return false, fmt.Sprintf("comparator %s returns the constant %s on some path without comparing its elements (at %s): elements it cannot compare keep their map-iteration order", fnName(fs[0]), c.Value, r.P.pos(retPos(ret)))
@@ -268,6 +276,12 @@ func (r *Run) classifyMapLoop(l *mapLoop) (class, arg string) {
 				}
 				effects++
 				kind("call:" + calleeDesc(&x.Call))
+				if sc := x.Call.StaticCallee(); sc != nil && inModule(sc) && sc.Blocks != nil {
+					if l.kindFn == nil {
+						l.kindFn = map[string]*ssa.Function{}
+					}
+					l.kindFn["call:"+calleeDesc(&x.Call)] = sc
+				}
 				bad("call of " + calleeDesc(&x.Call) + " at " + r.P.pos(x.Pos()) + " whose effects are not summarised")
 			}
 		}
@@ -733,13 +747,97 @@ func ruleMapRanges(sc scope, min int) ruleFn {
 				if class, arg := r.classifyMapLoop(l); class != "" {
 					r.OK(rule, name, construct, site, "class "+class+": "+arg)
 					continue
-				} else if reason, ok := useTable(r, detTable, name+"/"+construct); ok && kindsAllowed(l.kinds, normKinds(detKinds)[pkgKey(name+"/"+construct)]) {
+				} else if reason, ok := useTable(r, detTable, name+"/"+construct); ok && kindsAllowed(r.expandHelperKinds(l, normKinds(detKinds)[pkgKey(name+"/"+construct)]), normKinds(detKinds)[pkgKey(name+"/"+construct)]) {
 					r.Tabled(rule, name, construct, site, "det", reason)
-				} else if _, tabled := normTable(&detTable)[pkgKey(name+"/"+construct)]; tabled && !kindsAllowed(l.kinds, normKinds(detKinds)[pkgKey(name+"/"+construct)]) {
+				} else if _, tabled := normTable(&detTable)[pkgKey(name+"/"+construct)]; tabled && !kindsAllowed(r.expandHelperKinds(l, normKinds(detKinds)[pkgKey(name+"/"+construct)]), normKinds(detKinds)[pkgKey(name+"/"+construct)]) {
 					r.Bad(rule, name, construct, site, "this loop is tabled as order-insensitive for the effects "+strings.Join(normKinds(detKinds)[pkgKey(name+"/"+construct)], ", ")+", but it now also has: "+strings.Join(extraKinds(l.kinds, normKinds(detKinds)[pkgKey(name+"/"+construct)]), ", ")+" — "+arg)
 				} else {
 					r.Bad(rule, name, construct, site, "iteration over a map whose effects depend on the iteration order: "+arg)
 				}
+			}
+		}
+		// a map iteration hidden in a library call: lo.Keys / lo.Values / lo.Entries … hand back
+		// the keys in iteration order. The result has to be sorted before anything else uses it.
+		for _, fn := range fns {
+			r.silent = !set[fn]
+			for _, ins := range allInstrs(fn) {
+				c, ok := ins.(*ssa.Call)
+				if !ok {
+					continue
+				}
+				name := strings.SplitN(calleeName(&c.Call), "[", 2)[0]
+				hidden := false
+				for _, m := range []string{"lo.Keys", "lo.Values", "lo.Entries", "lo.ToPairs", "lo.MapToSlice", "lo.UniqKeys", "lo.UniqValues", "maps.Keys", "maps.Values"} {
+					if strings.HasSuffix(name, "/"+m) || name == m || strings.HasSuffix(name, "."+m) {
+						hidden = true
+					}
+				}
+				if !hidden {
+					continue
+				}
+				// uses of the result, through a local variable if it is kept in one
+				var uses []ssa.Instruction
+				var collect func(v ssa.Value, depth int)
+				collect = func(v ssa.Value, depth int) {
+					if v.Referrers() == nil || depth > 3 {
+						return
+					}
+					for _, ref := range *v.Referrers() {
+						switch y := ref.(type) {
+						case *ssa.DebugRef:
+						case *ssa.Store:
+							if al, ok := y.Addr.(*ssa.Alloc); ok && y.Val == v {
+								for _, r2 := range *al.Referrers() {
+									if ld, ok := r2.(*ssa.UnOp); ok {
+										collect(ld, depth+1)
+									}
+								}
+								continue
+							}
+							uses = append(uses, ref)
+						case *ssa.MakeInterface:
+							collect(y, depth+1)
+						default:
+							uses = append(uses, ref)
+						}
+					}
+				}
+				collect(c, 0)
+				var sorted ssa.Instruction
+				for _, u := range uses {
+					if ci, ok := u.(ssa.CallInstruction); ok {
+						if kind, isSort := isSortCall(ci.Common()); isSort {
+							if kind == "less" {
+								if ok, _ := r.totalLess(ci.Common().Args[1]); !ok {
+									continue
+								}
+							}
+							if sorted == nil || instrDominates(u, sorted) {
+								sorted = u
+							}
+						}
+					}
+				}
+				good := sorted != nil
+				for _, u := range uses {
+					if u == sorted {
+						continue
+					}
+					if cl, ok := u.(*ssa.Call); ok {
+						if b, ok := cl.Call.Value.(*ssa.Builtin); ok && b.Name() == "len" {
+							continue
+						}
+					}
+					if sorted == nil || !instrDominates(sorted, u) {
+						good = false
+					}
+				}
+				if set[fn] {
+					n++
+				}
+				r.Check(good, rule, fnName(fn), "result of "+calleeDesc(&c.Call), r.P.pos(c.Pos()),
+					"sorted by a total order before anything else uses it",
+					calleeDesc(&c.Call)+" hands back the entries of a map in Go's map iteration order, and the result is used without being sorted first: what is built from it differs from run to run")
 			}
 		}
 		r.silent = false
@@ -912,6 +1010,14 @@ func (r *Run) checkPositionalReducer(fn *ssa.Function, call *ssa.Call, mapF, red
 				fail("the reducer appends")
 				return
 			}
+			if _, ok := x.Call.Value.(*ssa.Builtin); !ok && !isPureCall(&x.Call) {
+				// third audit: a method that appends to a captured response went unnoticed
+				fail("the reducer also calls " + calleeDesc(&x.Call) + ": whatever that does happens in arrival order")
+				return
+			}
+		case *ssa.MapUpdate, *ssa.Send, *ssa.Go, *ssa.Defer:
+			fail("the reducer does more than place its value")
+			return
 		}
 	}
 	if stores != 1 {
@@ -922,19 +1028,17 @@ func (r *Run) checkPositionalReducer(fn *ssa.Function, call *ssa.Call, mapF, red
 	// the entry sort that makes the order of the incoming requests irrelevant: asked of the
 	// function that receives the execution requests themselves (the lists derived from them
 	// position by position inherit their order)
-	if len(fn.Params) >= 2 && strings.HasSuffix(fn.Params[len(fn.Params)-1].Type().String(), "executor.ExecutionRequest") {
-		r.checkSortedEntry(fn)
+	for _, p := range fn.Params {
+		if strings.HasSuffix(p.Type().String(), "[]*"+modPath+"/executor.ExecutionRequest") {
+			r.checkSortedEntry(fn, p)
+		}
 	}
 }
 
 // checkSortedEntry (R9b.sorted-entry): DepthExecutor.Execute sorts the request list it was
 // given with a comparator that always compares, before anything else looks at the list.
-func (r *Run) checkSortedEntry(fn *ssa.Function) {
+func (r *Run) checkSortedEntry(fn *ssa.Function, list *ssa.Parameter) {
 	const rule = "R9b.sorted-entry"
-	if len(fn.Params) < 2 {
-		return
-	}
-	list := fn.Params[len(fn.Params)-1]
 	var sortCall ssa.CallInstruction
 	why := "the request list is not sorted on entry"
 	for _, ins := range allInstrs(fn) {
@@ -943,15 +1047,47 @@ func (r *Run) checkSortedEntry(fn *ssa.Function) {
 			continue
 		}
 		kind, isSort := isSortCall(ci.Common())
-		if !isSort || len(ci.Common().Args) == 0 || viaCell(unwrap(ci.Common().Args[0])) != ssa.Value(list) && unwrap(ci.Common().Args[0]) != ssa.Value(list) {
+		if !isSort || len(ci.Common().Args) == 0 {
+			continue
+		}
+		arg0 := unwrap(ci.Common().Args[0])
+		var less ssa.Value
+		if kind == "iface" {
+			// sort.Sort / sort.Stable(byKey(list)): the argument is the list converted to a
+			// named slice type whose Less method is the comparator
+			mi, ok := ci.Common().Args[0].(*ssa.MakeInterface)
+			if !ok {
+				continue
+			}
+			arg0 = unwrap(mi.X)
+			if ct, ok := arg0.(*ssa.ChangeType); ok {
+				arg0 = unwrap(ct.X)
+			}
+			if m := r.P.SSA.LookupMethod(mi.X.Type(), nil, "Less"); m != nil {
+				less = m
+			} else if nt, ok := mi.X.Type().(*types.Named); ok {
+				for i := 0; i < nt.NumMethods(); i++ {
+					if nt.Method(i).Name() == "Less" {
+						less = r.P.SSA.FuncValue(nt.Method(i))
+					}
+				}
+			}
+			if less == nil || less.(*ssa.Function) == nil {
+				continue
+			}
+		}
+		if viaCell(arg0) != ssa.Value(list) && arg0 != ssa.Value(list) {
 			continue
 		}
 		if kind == "less" {
-			if ok, w := r.totalLess(ci.Common().Args[1]); !ok {
+			less = ci.Common().Args[1]
+		}
+		if less != nil {
+			if ok, w := r.totalLess(less); !ok {
 				why = w
 				continue
 			}
-			if missing := r.missingSortKeys(ci.Common().Args[1]); len(missing) > 0 {
+			if missing := r.missingSortKeys(less); len(missing) > 0 {
 				why = "the comparator does not look at " + strings.Join(missing, ", ") + ": requests which differ only there keep their arrival order"
 				continue
 			}
@@ -982,7 +1118,10 @@ func (r *Run) checkSortedEntry(fn *ssa.Function) {
 			if _, isMI := ins.(*ssa.MakeInterface); isMI {
 				continue
 			}
-			if uses && !instrDominates(sortCall, ins) {
+			if _, isCT := ins.(*ssa.ChangeType); isCT {
+				continue // conversion to the sort.Interface type that is handed to the sort
+			}
+			if uses && !instrDominates(sortCall, ins) && !sortSkippedOnlyWhenTrivial(sortCall, list) {
 				good = false
 				why = "the request list is used at " + r.P.pos(ins.Pos()) + " before it is sorted"
 			}
@@ -1586,4 +1725,134 @@ func chunkBody(r *Run, mapF *ssa.Function, idx *ssa.Parameter) (*ssa.Function, *
 		}
 	}
 	return nil, nil
+}
+
+// reachedOnlyOnEquality: every branch on the way to b (its dominating Ifs) was an equality
+// comparison that came out "equal" (the false side of !=, the true side of ==).
+func reachedOnlyOnEquality(b *ssa.BasicBlock) bool {
+	n := 0
+	for d := b; d != nil; d = d.Idom() {
+		if len(d.Preds) != 1 {
+			if d.Idom() == nil {
+				break
+			}
+			return false // a merge on the way: cannot tell
+		}
+		p := d.Preds[0]
+		iff, ok := p.Instrs[len(p.Instrs)-1].(*ssa.If)
+		if !ok {
+			continue
+		}
+		bo, ok := iff.Cond.(*ssa.BinOp)
+		if !ok {
+			return false
+		}
+		switch {
+		case bo.Op == token.NEQ && p.Succs[1] == d, bo.Op == token.EQL && p.Succs[0] == d:
+			n++
+		default:
+			return false
+		}
+	}
+	return n > 0
+}
+
+// sortSkippedOnlyWhenTrivial: the sort call is guarded by nothing but `len(list) > 1` (or an
+// equivalent test): a list of at most one element is sorted already.
+func sortSkippedOnlyWhenTrivial(sortCall ssa.CallInstruction, list ssa.Value) bool {
+	b := sortCall.Block()
+	if len(b.Preds) != 1 {
+		return false
+	}
+	p := b.Preds[0]
+	iff, ok := p.Instrs[len(p.Instrs)-1].(*ssa.If)
+	if !ok {
+		return false
+	}
+	bo, ok := iff.Cond.(*ssa.BinOp)
+	if !ok {
+		return false
+	}
+	isLen := func(v ssa.Value) bool {
+		c, ok := v.(*ssa.Call)
+		if !ok {
+			return false
+		}
+		bi, ok := c.Call.Value.(*ssa.Builtin)
+		return ok && bi.Name() == "len" && (viaCell(c.Call.Args[0]) == list || c.Call.Args[0] == list)
+	}
+	onTrue := p.Succs[0] == b
+	switch {
+	case isLen(bo.X) && bo.Op == token.GTR && isIntConst(bo.Y, 1) && onTrue,
+		isLen(bo.X) && bo.Op == token.GEQ && isIntConst(bo.Y, 2) && onTrue,
+		isLen(bo.X) && bo.Op == token.LSS && isIntConst(bo.Y, 2) && !onTrue,
+		isLen(bo.X) && bo.Op == token.LEQ && isIntConst(bo.Y, 1) && !onTrue:
+		// the block that holds the sort must itself dominate-or-rejoin: everything after the
+		// guarded region sees a sorted list either way
+		return p.Dominates(b)
+	}
+	return false
+}
+
+
+// expandHelperKinds: a call of a module helper that the loop's table entry does not know is
+// replaced by what the helper does itself — its own calls (of functions that are not pure) and
+// "store" when it writes memory it did not allocate. A loop body moved into a helper then shows
+// the same effects as before.
+func (r *Run) expandHelperKinds(l *mapLoop, allowed []string) []string {
+	isAllowed := map[string]bool{}
+	for _, a := range allowed {
+		isAllowed[a] = true
+	}
+	var out []string
+	seen := map[*ssa.Function]bool{}
+	var expand func(k string, fn *ssa.Function, depth int)
+	expand = func(k string, fn *ssa.Function, depth int) {
+		if isAllowed[k] || fn == nil || depth > 2 || seen[fn] {
+			out = append(out, k)
+			return
+		}
+		seen[fn] = true
+		for _, ins := range allInstrs(fn) {
+			switch x := ins.(type) {
+			case *ssa.Store:
+				root := x.Addr
+				for {
+					if fa, ok := root.(*ssa.FieldAddr); ok {
+						root = fa.X
+						continue
+					}
+					if ia, ok := root.(*ssa.IndexAddr); ok {
+						root = ia.X
+						continue
+					}
+					break
+				}
+				if al, ok := root.(*ssa.Alloc); ok && al.Parent() == fn {
+					continue
+				}
+				out = append(out, "store")
+			case *ssa.MapUpdate:
+				out = append(out, "mapwrite-unkeyed")
+			case *ssa.Send, *ssa.Go:
+				out = append(out, "concurrency")
+			case *ssa.Call:
+				if _, isB := x.Call.Value.(*ssa.Builtin); isB || isPureCall(&x.Call) || r.pureCallee(x) {
+					continue
+				}
+				k2 := "call:" + calleeDesc(&x.Call)
+				var f2 *ssa.Function
+				if sc := x.Call.StaticCallee(); sc != nil && inModule(sc) && sc.Blocks != nil {
+					f2 = sc
+				}
+				expand(k2, f2, depth+1)
+			}
+		}
+		// a helper that can stop the loop early has to say so through its result: not modelled,
+		// the caller's own exits are still seen in the loop itself
+	}
+	for _, k := range l.kinds {
+		expand(k, l.kindFn[k], 0)
+	}
+	return out
 }
